@@ -41,6 +41,11 @@ func Preamble(m Mode) string {
 	if !m.BV {
 		b.WriteString("(declare-fun eo (Int Int) Int)\n(assert (forall ((c Int) (i Int)) (! (= (eo c i) (* c i)) :pattern ((eo c i)))))\n")
 	}
+	if !m.BV {
+		for _, srt := range []string{"Int", "Bool", "Ptr", "Slice", "Iface"} {
+			fmt.Fprintf(&b, "(declare-fun touch_%s (%s) Bool)\n(assert (forall ((x %s)) (! (touch_%s x) :pattern ((touch_%s x)))))\n", srt, srt, srt, srt, srt)
+		}
+	}
 	b.WriteString(TheoryPrelude(m))
 	return b.String()
 }
@@ -84,10 +89,29 @@ func prunePreamble(pre string, body string) string {
 			if isDef {
 				need = used[t[1]]
 			} else if strings.HasPrefix(ln, "(assert") {
-				for _, x := range t {
-					if used[x] {
-						need = true
-						break
+				// a quantified axiom fires only through its triggers: it is needed when all theory symbols of one of its
+				// trigger alternatives are in use; a fact without such triggers is needed when it mentions a used symbol
+				alts := patternSymbols(ln, defined)
+				if len(alts) > 0 {
+					for _, alt := range alts {
+						all := true
+						for _, x := range alt {
+							if !used[x] {
+								all = false
+								break
+							}
+						}
+						if all {
+							need = true
+							break
+						}
+					}
+				} else {
+					for _, x := range t {
+						if used[x] {
+							need = true
+							break
+						}
 					}
 				}
 			} else {
@@ -111,6 +135,47 @@ func prunePreamble(pre string, body string) string {
 		}
 	}
 	return strings.Join(out, "\n") + "\n"
+}
+
+// patternSymbols returns, for each `:pattern (...)` group of an axiom that mentions at least one theory symbol, the
+// theory symbols it mentions (groups made of built-in symbols only belong to inner quantifiers over arrays).
+func patternSymbols(ln string, defined map[string]int) [][]string {
+	var out [][]string
+	rest := ln
+	for {
+		i := strings.Index(rest, ":pattern (")
+		if i < 0 {
+			break
+		}
+		rest = rest[i+len(":pattern "):]
+		depth, end := 0, -1
+		for k := 0; k < len(rest); k++ {
+			if rest[k] == '(' {
+				depth++
+			} else if rest[k] == ')' {
+				depth--
+				if depth == 0 {
+					end = k
+					break
+				}
+			}
+		}
+		if end < 0 {
+			break
+		}
+		grp := rest[:end+1]
+		var syms []string
+		for _, tk := range strings.FieldsFunc(grp, func(r rune) bool { return r == '(' || r == ')' || r == ' ' }) {
+			if _, ok := defined[tk]; ok {
+				syms = append(syms, tk)
+			}
+		}
+		if len(syms) > 0 {
+			out = append(out, syms)
+		}
+		rest = rest[end:]
+	}
+	return out
 }
 
 func (r *FuncResult) Query(o *Obl, getModel bool) string {
